@@ -107,6 +107,14 @@ func buildWorker(repo string) *build {
 	}
 	worker := filepath.Join(dir, "worker")
 	args := []string{"build", "-race", "-tags", "verif", "-overlay", oj, "-o", worker}
+	if pd := os.Getenv("VERIF_PROBES"); pd != "" {
+		// generator audit only (tools/coverage.sh): reach probes at every
+		// block of the code under test; the list of sites goes next to the
+		// workers' counts. Not a check build (the counters order the tasks).
+		os.MkdirAll(pd, 0o755)
+		bs, _ := json.Marshal(rep.ProbeSites)
+		os.WriteFile(filepath.Join(pd, "sites.json"), bs, 0o644)
+	}
 	if repo != "/repo" {
 		// go.mod replaces the deps.dev modules with /repo/util/...; for another
 		// tree use a rewritten copy of go.mod (and its go.sum) via -modfile.
